@@ -237,12 +237,16 @@ RDPRef(m, cfg) ==
 (***************************************************************************)
 HTTPMsgs == [method : {"GET", "POST"}, path : {"/", "/api/x", "/other"}, version : {"HTTP/1.1", "HTTP/1.0", "HTTQ/1.1"},
              eol : {"crlf", "lf"}, host : {"example.com", "other.org", ""}, xtest : BOOLEAN, complete : BOOLEAN]
-HTTPCfgs == [filter : {"none", "host", "path", "method", "header"}]
+\* filter "tenant": header X-Tenant alpha - a field may occur several times; the filter holds if ANY occurrence has the value
+HTTPCfgs == [filter : {"none", "host", "path", "method", "header", "tenant"}]
 \* lines that are no request line: n bytes then LF or CR LF (n around the matcher's own bounds)
 HTTPJunk == [junk : 0..24, eol : {"crlf", "lf"}]
 \* HTTP/2 with prior knowledge (RFC 9113 3.4): the preface "PRI * HTTP/2.0 CRLF CRLF SM CRLF CRLF",
 \* SETTINGS, then HEADERS carrying the request; "bigframe": a frame header announcing 16 MiB
-HTTP2Msgs == [h2 : {"request", "bigframe", "preface_only"}, host : {"example.com", "other.org"}, path : {"/api/x", "/"}, method : {"GET", "POST"}]
+\* tenant: the x-tenant fields of the HEADERS frame, in order ("none": the field is absent)
+HTTP2Msgs == { m \in [h2 : {"request", "bigframe", "preface_only"}, host : {"example.com", "other.org"}, path : {"/api/x", "/"}, method : {"GET", "POST"},
+                       tenant : {"none", "alpha", "alpha_beta", "beta_alpha", "beta"}] :
+               m.tenant # "none" => (m.h2 = "request" /\ m.host = "example.com" /\ m.path = "/api/x" /\ m.method = "GET") }
 HTTPRef(m, cfg) ==
   IF "junk" \in DOMAIN m THEN "N"
   ELSE IF "h2" \in DOMAIN m THEN
@@ -253,6 +257,7 @@ HTTPRef(m, cfg) ==
                   [] cfg.filter = "path" -> m.path = "/api/x"
                   [] cfg.filter = "method" -> m.method = "POST"
                   [] cfg.filter = "header" -> FALSE
+                  [] cfg.filter = "tenant" -> m.tenant \in {"alpha", "alpha_beta", "beta_alpha"}
              THEN "Y" ELSE "N")
   ELSE IF m.version = "HTTQ/1.1" THEN "N"
   ELSE IF ~m.complete THEN "M"
@@ -261,6 +266,7 @@ HTTPRef(m, cfg) ==
             [] cfg.filter = "path" -> m.path = "/api/x"          \* path matcher /api/*
             [] cfg.filter = "method" -> m.method = "POST"
             [] cfg.filter = "header" -> m.xtest
+            [] cfg.filter = "tenant" -> FALSE
        THEN "Y" ELSE "N"
 
 (***************************************************************************)
